@@ -113,10 +113,12 @@ int splinetable_write_key(struct splinetable* table, splinetable_dtype type,
 		auto& real_table=*static_cast<photospline::splinetable<>*>(table->data);
 		switch(type){
 			case SPLINETABLE_INT:
-				real_table.write_key(key,*static_cast<const int*>(value));
+				if(!real_table.write_key(key,*static_cast<const int*>(value)))
+					return(1);
 				break;
 			case SPLINETABLE_DOUBLE:
-				real_table.write_key(key,*static_cast<const double*>(value));
+				if(!real_table.write_key(key,*static_cast<const double*>(value)))
+					return(1);
 				break;
 			default:
 				return(1);
